@@ -131,6 +131,38 @@ func c03Gen(c *core.Ctx) func(yield func(c03Case) bool) {
 		if !ok {
 			return
 		}
+		// substitution from before-instantiation (the container short-cuts creation and publishes
+		// what the processor answered: a substitute, or the component itself), alone and next to one
+		// other node substituted at any later timing
+		allGraphs(3, three, false, func(e [][]int) bool {
+			for node := 0; node < 3; node++ {
+				for _, inst := range []int{scen.WrapInst, scen.WrapInstSelf} {
+					for other := -1; other < 3; other++ {
+						if other == node {
+							continue
+						}
+						for plan := 1; plan < scen.NumWrapPlans; plan++ {
+							w := []int{0, 0, 0}
+							w[node] = inst
+							if other >= 0 {
+								w[other] = plan
+							} else if plan > 1 {
+								break
+							}
+							for _, base := range [][]int{{0, 1, 2}, {2, 1, 0}} {
+								if ok = yield(c03Case{scen.GraphProg{N: 3, Edges: e, Wrap: w, Base: base, Family: "n3-binst"}, 0}); !ok {
+									return false
+								}
+							}
+						}
+					}
+				}
+			}
+			return true
+		})
+		if !ok {
+			return
+		}
 		// 2-node graphs with self-made deviations on iteration order
 		allGraphs(2, three, false, func(e [][]int) bool { return emit(2, e, 2, [][]int{{0, 1}}, "n2-dev", 1) })
 		if !ok || !c.Thorough() {
